@@ -333,6 +333,47 @@ theorem reachOrd_ordered {rank : Key → Nat} (h : ReachOrd c n sh rank s) : Ord
   | init => exact ordered_init rank
   | step _ hok hs ih => exact ordered_step ih hok hs
 
+/-! #### no cycle in the waits-for relation (any number of keys per call, any number of shards) -/
+
+/-- `t` sleeps on an object that `u` holds, and `u` is itself asleep: an edge of the waits-for graph among sleepers -/
+def waitsFor (s : State) (t u : Tid) : Prop :=
+  (∃ m all k o rest k' m', (s.th t).phase = .acq m all ((k, o) :: rest) ∧ tryLock m t (s.objs o) = .blocked ∧
+    (k', o, m') ∈ (s.th u).held) ∧ blockedT s u
+
+/-- rank of the key a sleeping thread is asleep on (0 when it is not inside a blocking call) -/
+def awaitedRank (rank : Key → Nat) (s : State) (t : Tid) : Nat :=
+  match (s.th t).phase with
+  | .acq _ _ ((k, _) :: _) => rank k
+  | _ => 0
+
+/-- along a waits-for edge the awaited rank strictly increases: the holder acquired the contested key *before* the key
+it now sleeps on, and acquisition goes upwards in rank (for lists of any length: `group_order_rank`) -/
+theorem kl_waits_for_rank_increases (hc : Proved c) (hsh : ∀ k, sh k < n) {rank : Key → Nat}
+    (hr : ReachOrd c n sh rank s) {t u : Tid} (h : waitsFor s t u) : awaitedRank rank s t < awaitedRank rank s u := by
+  have hI := (inv12_reach hc n sh hsh s (reachOrd_reach hr)).1
+  have hord := reachOrd_ordered hr
+  obtain ⟨⟨m, all, k, o, rest, k', m', hph, _, hheld⟩, ⟨m2, a2, k2, o2, r2, e2, _⟩⟩ := h
+  have htk : s.table k = some o := hI.refTab t k o m ((mem_refs_acq hph _).2 (.inr ⟨(k, o), by simp, rfl⟩))
+  have hkk : k' = k := hI.tInj k' k o (hI.refTab u k' o m' (by simp [refs, hheld])) htk
+  subst hkk
+  have hlt : rank k' < rank k2 := by
+    apply (hord u).2 k' (List.mem_map.2 ⟨(k', o, m'), hheld, rfl⟩) k2
+    simp [seqKeys, pend, e2]
+  simp only [awaitedRank, hph, e2]; exact hlt
+
+/-- **no waits-for cycle**: with disciplined callers (in particular: ascending duplicate-free lists by threads that hold
+nothing, `reachFlat_reachOrd`) the waits-for graph among sleeping threads is acyclic — whatever the length of the key
+lists and however many shards one call spans -/
+theorem kl_no_wait_cycle (hc : Proved c) (hsh : ∀ k, sh k < n) {rank : Key → Nat}
+    (hr : ReachOrd c n sh rank s) (t : Tid) : ¬ Relation.TransGen (waitsFor s) t t := by
+  have mono : ∀ a b, Relation.TransGen (waitsFor s) a b → awaitedRank rank s a < awaitedRank rank s b := by
+    intro a b h
+    induction h with
+    | single h => exact kl_waits_for_rank_increases hc hsh hr h
+    | tail _ h ih => exact Nat.lt_trans ih (kl_waits_for_rank_increases hc hsh hr h)
+  intro h
+  exact Nat.lt_irrefl _ (mono t t h)
+
 /-- steps that work off existing obligations (everything except starting a new Lock/RLock/Locks/RLocks call) -/
 def isProgress : Act → Prop
   | .call .. => False
